@@ -25,7 +25,7 @@ var lexEnt = map[string]string{
 	"param": "local function fn(ent) return ent end", "forvar": "for ent = 1, 2 do print(ent) end",
 	"attr": "local ent <const> = 1", "attr2": "local zq <const>, ent <const> = 1, 2", "local2": "local zq, ent = 1, 2",
 	"forin2": "for zq, ent in pairs({}) do print(ent) end",
-	"undef": "print(ent)", "gundef": "print(_G.ent)", "retfield": "return { ent = 1 }",
+	"undef":  "print(ent)", "gundef": "print(_G.ent)", "retfield": "return { ent = 1 }",
 }
 var lexFollow = map[string]bool{"local": true, "lfunc": true, "global": true, "gfunc": true, "attr": true, "attr2": true, "local2": true}
 var lexEOL = map[string]string{"LF": "\n", "CRLF": "\r\n", "CR": "\r"}
